@@ -597,21 +597,9 @@ Definition mutate0 (l : list N) (o : op) : option (list N * out0) :=
   | OTruncChars n => Some (l0_trunc_chars l n, R0None)
   | OTruncTo n => Some (l0_trunc_to l n, R0None)
   | OSwap _ x => Some (x, R0Str l)
-  | OMinusCh ch => Some (match l0_last_index_of_ch l ch 0 with
-                         | Zneg _ => l
-                         | z => takeN (Z.to_N z) l ++ dropN (Z.to_N z + 1) l end, R0None)
-  | OMinusS a => Some (match sb a with
-                       | [] => l
-                       | x => match l0_last_index_of1 l x with
-                              | Zneg _ => l
-                              | z => takeN (Z.to_N z) l ++ dropN (Z.to_N z + lenN x) l end
-                       end, R0None)
-  | OMinusC c => Some (match cb c with
-                       | [] => l
-                       | x => match l0_last_index_of1 l x with
-                              | Zneg _ => l
-                              | z => takeN (Z.to_N z) l ++ dropN (Z.to_N z + lenN x) l end
-                       end, R0None)
+  | OMinusCh ch => Some (l0_minus_ch l ch, R0None)
+  | OMinusS a => Some (l0_minus l (sb a), R0None)
+  | OMinusC c => Some (l0_minus l (cb c), R0None)
   | OReverse => Some (rev l, R0None)
   | OReplaceCh a b m f => let '(l', k) := l0_replace_ch l a b m f in Some (l', R0Nat k)
   | OReplaceS rm wm m f => let '(l', k) := l0_replace_sub l (sb rm) (sb wm) m f in Some (l', R0Int (Z.of_N k))
@@ -648,8 +636,46 @@ Definition abs_out (M : N) (o : out1) : out0 :=
   | R1Bytes b => R0Bytes b | R1Str r => R0Str (abs M r) | R1StrNat r n => R0StrNat (abs M r) n
   end.
 
-Definition run1 (M TH PG OV jk : N) (fixed : bool) (ops : list op) : str1 * list out1 :=
-  fold_left (fun acc o => let '(s, outs) := acc in let '(s', r) := step1 M TH PG OV jk fixed s o in (s', outs ++ [r]))
-            ops (empty1 M jk, []).
-Definition run0 (ops : list op) : list N * list out0 :=
-  fold_left (fun acc o => let '(l, outs) := acc in let '(l', r) := step0 l o in (l', outs ++ [r])) ops ([], []).
+(* executing a list of operations, collecting the outputs *)
+Fixpoint exec1 (M TH PG OV jk : N) (fixed : bool) (s : str1) (ops : list op) : str1 * list out1 :=
+  match ops with
+  | [] => (s, [])
+  | o :: t => let '(s1, r) := step1 M TH PG OV jk fixed s o in
+              let '(s2, rs) := exec1 M TH PG OV jk fixed s1 t in (s2, r :: rs)
+  end.
+Fixpoint exec0 (l : list N) (ops : list op) : list N * list out0 :=
+  match ops with
+  | [] => (l, [])
+  | o :: t => let '(l1, r) := step0 l o in
+              let '(l2, rs) := exec0 l1 t in (l2, r :: rs)
+  end.
+
+(* an operation with every aliasing operand replaced by a separate copy of the subject's bytes *)
+Definition dealias_s (l : list N) (a : sarg) : sarg := match a with ASelf => ALit l | _ => a end.
+Definition dealias_c (l : list N) (c : carg) : carg := match c with CSelf off => CLit (dropN off l) | _ => c end.
+Fixpoint dealias (l : list N) (o : op) : op :=
+  let S := dealias_s l in
+  let C := dealias_c l in
+  match o with
+  | OSetCstr c m => OSetCstr (C c) m
+  | OSetFrom a f t => OSetFrom (S a) f t
+  | OAppendS a => OAppendS (S a) | OAppendC c => OAppendC (C c)
+  | OInsertChars i c m => OInsertChars i (C c) m
+  | OMinusS a => OMinusS (S a) | OMinusC c => OMinusC (C c)
+  | OReplaceS a b m f => OReplaceS (S a) (S b) m f
+  | OIndexOfS a f => OIndexOfS (S a) f | OIndexOfC c f => OIndexOfC (C c) f
+  | OLastIndexOfS1 a => OLastIndexOfS1 (S a) | OLastIndexOfS a f => OLastIndexOfS (S a) f
+  | OCountS a f => OCountS (S a) f
+  | OStartsS a => OStartsS (S a) | OEndsS a => OEndsS (S a) | OStartsSI a => OStartsSI (S a) | OEndsSI a => OEndsSI (S a)
+  | OCompare a => OCompare (S a) | OCompareI a => OCompareI (S a) | OEqualsI a => OEqualsI (S a)
+  | OIndexOfSI a f => OIndexOfSI (S a) f | OLastIndexOfSI a f => OLastIndexOfSI (S a) f
+  | OSubstringAfter a => OSubstringAfter (S a) | OSubstringUntil f a => OSubstringUntil f (S a)
+  | OWithInsertS i a m => OWithInsertS i (S a) m
+  | OWithReplS a b m f => OWithReplS (S a) (S b) m f
+  | OArgS a => OArgS (S a)
+  | OWithSuffixS a => OWithSuffixS (S a) | OWithPrefixS a => OWithPrefixS (S a)
+  | OWithoutSuffixS a m => OWithoutSuffixS (S a) m | OWithoutPrefixS a m => OWithoutPrefixS (S a) m
+  | OPlusS a => OPlusS (S a)
+  | OAssign o' => OAssign (dealias l o')
+  | _ => o
+  end.
